@@ -84,6 +84,23 @@ func runEpochProp(r *Run, prop string) error {
 func runPhasedProp(r *Run, prop string) error {
 	r.Res.Rule = "same population generator as C02; the three phases of the sequential executor are driven separately so that quotas, parents and champions can be observed between them; " +
 		"non-trivial = >= 2 species at some epoch (C09) / >= 1 species with quota > 5 (C10); distinct by (seed, options)"
+	// the tie between model and code for this check: whole-epoch correspondence through the public NextEpoch
+	cf := r.NewCaseFile(0, "Res F64 Genome Options GenomeLit EpochCases "+prop+"Cases", "epoch_case")
+	shard, per := 0, 0
+	for i := 0; i < r.N(18, 480); i++ {
+		if per >= 6 {
+			cf.Close("epoch_mismatches")
+			shard++
+			cf = r.NewCaseFile(shard, "Res F64 Genome Options GenomeLit EpochCases "+prop+"Cases", "epoch_case")
+			per = 0
+		}
+		in := newEpochInput(r, prop, 30, 6, prop == "C10")
+		res := runHistory(r, in, cf, i)
+		per++
+		r.Count(fmt.Sprint("corr", in.Seed), res.multi > 0)
+		r.Hist("correspondence_epochs_run", fmt.Sprint(res.epochsRun))
+	}
+	cf.Close("epoch_mismatches")
 	for i := 0; i < r.N(60, 1500); i++ {
 		in := newEpochInput(r, prop, 70, 20, prop == "C10")
 		res := runPhased(r, in)
